@@ -34,10 +34,13 @@ def programs():
     m = jnp.mean(b['x'])
     nxt = {'acc': st['acc'] / m + jax.random.uniform(u, ()), 'n': st['n'] + 1, 'key': k,
            'seen': jnp.logical_or(st['seen'], b['x'] > 1.5)}
-    return nxt, {'log': jnp.log(jnp.sum(b['x'])), 'inv': 1.0 / m, 'idx': st['n']}
+    # 'resid' has the shape/dtype of the batch leaf and 'echo' (below) that of the shared input: XLA only honours a
+    # donation when some output can reuse the buffer, so these make a wrongly donated caller array actually die
+    return nxt, {'log': jnp.log(jnp.sum(b['x'])), 'inv': 1.0 / m, 'idx': st['n'], 'resid': b['x'] * 2.0 - 1.0}
 
   def a_final(shared, st):
-    return {'out': st['acc'] - shared['w'], 'n': st['n'], 'seen': st['seen'], 'bias': shared['b'] + st['n']}
+    return {'out': st['acc'] - shared['w'], 'n': st['n'], 'seen': st['seen'], 'bias': shared['b'] + st['n'],
+            'echo': shared['w'] * 3.0, 'echo_b': shared['b'] * 2}
 
   # PB: nested tuple state, no step result, default client_final (returns the state itself).
   def b_init(shared, ci):
